@@ -846,6 +846,10 @@ MUTANTS = [
     Mutant('reset-moved-out-of-finally', EXPR, _FINALLY, "        except:\n            raise\n\n        self.reset_storage()\n        return parsed", 'D2'),
     Mutant('reset-only-on-failure', EXPR, _FINALLY, "        except:\n            self.reset_storage()\n            raise\n\n        return parsed", 'D2'),
     Mutant('reset-dropped', EXPR, _FINALLY, "        except:\n            raise\n\n        return parsed", 'D2'),
+    Mutant('reset-behind-narrow-handler', EXPR, _FINALLY,
+           "        except ParseException:\n            BracketValidator.validate(expression)\n            self.reset_storage()\n            raise\n\n"
+           "        self.reset_storage()\n        return parsed", 'D2',
+           note='seeded: only ParseException is handled and validate() runs before the reset'),
     # D3
     Mutant('clear-instead-of-fresh-set', EXPR, "    def reset_storage(self):\n        self.variables_used = set()", "    def reset_storage(self):\n        self.variables_used.clear()", 'D3'),
     Mutant('reset-forgets-suffixes', EXPR, "        self.functions_used = set()\n        self.suffixes_used = set()\n\n    def variable_parse_action",
@@ -855,6 +859,10 @@ MUTANTS = [
            "        except ParseException:\n            self.cache[cache_key] = None\n            msg = \"Invalid Input: Could not parse", 'D4'),
     Mutant('cache-keyed-by-raw-string', EXPR, "cache_key = expression_no_whitespace", "cache_key = expression", 'D4'),
     Mutant('raw-string-parsed', EXPR, "parsed = self.raw_parse(expression_no_whitespace)", "parsed = self.raw_parse(expression)", 'D4'),
+    Mutant('cache-key-strips-all-whitespace', EXPR, "cache_key = expression_no_whitespace", "cache_key = ''.join(expression.split())", 'D4',
+           note='seeded: once 10 is cached, 1<TAB>0 hits that entry and evaluates to 10 instead of being rejected'),
+    Mutant('parsed-text-strips-all-whitespace', EXPR, "parsed = self.raw_parse(expression_no_whitespace)",
+           "parsed = self.raw_parse(''.join(expression.split()))", 'D4'),
     # D5
     Mutant('consumer-accumulates-into-cached-set', MH, "vars_used = set().union(*[p.variables_used for p in parsed_expressions])",
            "vars_used = parsed_expressions[0].variables_used if parsed_expressions else set()\n        for p in parsed_expressions:\n            vars_used.update(p.variables_used)", 'D5'),
